@@ -171,6 +171,9 @@ def c12():
                   "explored 4-5 calls deep, and every conforming edge is replayed again with a pickle round trip inserted right before it (the BFS tree reaches a state along "
                   "one path only), so that removals after the round trip are reached. non-trivial = transition whose triggered task set is non-empty",
                   plans, tags=["C12"], modes=modes, hashseeds=hs, queries=True, finish=False, loops=("pickle_copy", "pickle_orig"), nloops=2)
+    # keys as numpy hands them out (np.int64 list positions, np.str_ names): a round trip must not turn them into other objects
+    v = me.run("C12", "model_checking", "", [dict(universe="U2", variant="xfer", depth=2 if _q() else 3, emitidx=False)], tags=["C12"], keys=("numpy",), modes=modes[:1],
+               hashseeds=(0,), queries=False, finish=False, loops=("pickle_copy", "pickle_orig"), nloops=2, verdict=v)
     v.cov["rule"] += " || second stage, Expr.tla: every expression TLC builds (every node class: binary, unary, literal, builtin with and without parameters, " \
                      "call with kwargs, nested item/attribute refs, computed keys) is pickled and restored on its own: same structure, same value"
     return ee.run("C12", "model_checking", "", _expr_plans(_q())[:2] if _q() else _expr_plans(False), tags=["C12"], modes=modes, hashseeds=(0,), verdict=v)
